@@ -150,8 +150,15 @@ func vfLine(rt *rapid.T, label string) string {
 	case 0:
 		return ""
 	case 1:
-		n := rapid.SampledFrom([]int{4095, 4096, 4097, 8192, 3*4096 + 5}).Draw(rt, label+".big")
-		return strings.Repeat(string(rune('a'+rapid.IntRange(0, 25).Draw(rt, label+".c"))), n)
+		// longer than the reader's buffer (whatever its size: 4 KiB today), with
+		// position-dependent content so that a garbled or shifted line is visible
+		n := rapid.SampledFrom([]int{4095, 4096, 4097, 8192, 3*4096 + 5, 4097, 8192, 65535, 65536, 65537, 2*65536 + 3}).Draw(rt, label+".big")
+		c := string(rune('a' + rapid.IntRange(0, 25).Draw(rt, label+".c")))
+		var sb strings.Builder
+		for i := 0; sb.Len() < n; i++ {
+			fmt.Fprintf(&sb, "%s%d.", c, i)
+		}
+		return sb.String()[:n]
 	default:
 		return fmt.Sprintf("type=X msg=audit(1.%03d:%d): %s", rapid.IntRange(0, 999).Draw(rt, label+".ms"), rapid.IntRange(1, 1<<20).Draw(rt, label+".seq"),
 			rapid.StringMatching(`[a-z0-9 =]{0,30}`).Draw(rt, label+".body"))
